@@ -67,6 +67,9 @@ func c06Cells(tier string) []Cell {
 			cells = append(cells, Cell{ID: c06Cell{Front: front, Path: path, Caller: "none", Cancel: "never"}.id()})
 		}
 
+		// a backend that lowers the TTL of one key's writes through the context it is handed
+		cells = append(cells, Cell{ID: c06Cell{Front: front, Path: "capBg", Caller: "none", Cancel: "never"}.id()})
+
 		// builds that fail
 		for _, path := range []string{"failA", "failSu", "failBg"} {
 			for _, caller := range []string{"none", "0", "10s", "1h", "-1s"} {
@@ -216,6 +219,43 @@ func c06Nested(cc c06Cell, env *Env) CellResult {
 	})
 }
 
+// c06Cap: the backend lowers the TTL of one key's writes the documented way (WithTTL(ctx, 1s, true) on the context it is
+// handed). That is its business with THAT write: the stale re-store of another key still carries UpdateTTL, and the
+// built values their callers' TTL.
+func c06Cap(cc c06Cell, env *Env) CellResult {
+	cfg := FCfg{Front: cc.Front, MS: true, FailC: "00", Script: "o", Init: "SS", Tags: []string{"capkey0"},
+		Threads: [][]GOp{{{Key: 0}, {Key: 1}, {Key: 0}, {Key: 1}}}}
+	front := frontNames[cc.Front]
+
+	return exploreF(cfg, env, vsched.Options{PreemptionBound: 2, EnvBound: 0, HBCache: true, Deadline: env.Deadline}, nil, func(h *fh, r *vsched.Result) []Violation {
+		var vs []Violation
+
+		bad := func(kind, detail string) {
+			vs = append(vs, Violation{Signature: fmt.Sprintf("C06 %s %s path=%s", front, kind, cc.Path), Detail: detail})
+		}
+
+		if r.Deadlock || r.Panic != nil {
+			bad("fatal", fmt.Sprintf("deadlock=%v panic=%v", r.Deadlock, r.Panic))
+			return vs
+		}
+
+		for _, e := range h.log {
+			if e.Kind != "write" {
+				continue
+			}
+
+			switch {
+			case e.Tok.O == "pre" && e.TTL != updateTTL:
+				bad("refresh-ttl", fmt.Sprintf("stale value of key %d re-stored with TTL %v, want UpdateTTL %v (the backend lowered the TTL of an earlier write of key 0 on the context it was handed)", e.Key, e.TTL, updateTTL))
+			case e.Tok.O == "b" && e.TTL != 0:
+				bad("final-ttl", fmt.Sprintf("built value of key %d stored with context TTL %v, the caller asked for none", e.Key, e.TTL))
+			}
+		}
+
+		return vs
+	})
+}
+
 // c06SkipWaiter: a plain Get and a SkipRead Get on one stale key, all schedules: the SkipRead Get returns a built
 // value (its own build or the one it waited for), never the stale one.
 func c06SkipWaiter(cc c06Cell, env *Env) CellResult {
@@ -244,6 +284,10 @@ func c06Run(c Cell, env *Env) CellResult {
 
 	if strings.HasPrefix(cc.Path, "nested") {
 		return c06Nested(cc, env)
+	}
+
+	if cc.Path == "capBg" {
+		return c06Cap(cc, env)
 	}
 
 	if strings.HasPrefix(cc.Path, "skipW") {
@@ -558,7 +602,7 @@ func init() {
 	Register(&Prop{
 		ID: "C06", Title: "TTL and context travel through Failover as documented",
 		Cells: c06Cells, Run: c06Run,
-		Rule: "grid caller TTL {no cell, 0, 10s, 1h, -1s} x builder behaviour (every sequence of <=2 (quick: 73) / <=3 (thorough: 585) WithTTL(ctx,b,upd) calls, b in {0,5s,2h,-1s}, upd in {true,false}) x path {cold miss, sync update of a stale value, background update, waiter, cold miss and background update with NESTED builder scopes, SkipRead on a fresh entry; a SkipRead Get next to a plain Get on a stale key (sync / background update, SyncRead on / off); SkipRead on an absent / stale / too stale entry and with a failure cached for the key (uncancelled caller only); a build that FAILS on a cold miss / sync update / background update; a background build whose builder asks the front-end for another stale key with its own or a derived, deadlined context} " +
+		Rule: "grid caller TTL {no cell, 0, 10s, 1h, -1s} x builder behaviour (every sequence of <=2 (quick: 73) / <=3 (thorough: 585) WithTTL(ctx,b,upd) calls, b in {0,5s,2h,-1s}, upd in {true,false}) x path {cold miss, sync update of a stale value, background update, waiter, cold miss and background update with NESTED builder scopes, SkipRead on a fresh entry; a SkipRead Get next to a plain Get on a stale key (sync / background update, SyncRead on / off); SkipRead on an absent / stale / too stale entry and with a failure cached for the key (uncancelled caller only); a build that FAILS on a cold miss / sync update / background update; a background build whose builder asks the front-end for another stale key with its own or a derived, deadlined context; a backend that lowers the TTL of one key's writes through the context it is handed} " +
 			"x caller context {never cancelled, cancelled before, cancelled after, carrying a deadline} x 3 front-ends; each case under the scheduler with all schedules (unbounded, HB cached); a recording backend wrapper notes TTL(ctx) of every Write, the builder notes Err/Done/Deadline/Value of its context",
 		Assumptions: []string{
 			"'smallest non-zero' is taken over signed durations (a negative TTL is smaller than any positive one), as the implementation's comparison does",
